@@ -1455,6 +1455,8 @@ class Arm(Robot):
                 atol = 1e-9, rtol = 0):
             self._eef_to_last_joint = fsr.globalToLocal(
                     self._end_effector_home, self._joint_homes_global[-1])
+        else:
+            self._eef_to_last_joint = None
 
     def _helper_refresh_body_screws(self):
         """
